@@ -113,7 +113,13 @@ def rule_complete_before_publish(ctx, facts, prefix="C07"):
         tp = Prov(t)
         for c in t.calls_to(r"async_std::fs::File::create$"):
             sw = edit.examining_switches(t, tp, c)
-            ctx.check(bool(sw), prefix + "-R3", "unexamined|create", "the result of File::create is examined", c.where())
+            if not sw:
+                # `File::create(..).await.map(..).map_err(..)` as the function's value: Err stays Err
+                org0 = tp.origins(0)
+                mapped = any(o[0] == "call" and o[1].bb == c.bb for o in org0) and all(x.matches(r"Result::<.*>::(map|map_err|and_then|or_else)$|::poll$|into_future$|new_unchecked$|get_context$") or x.bb == c.bb for x in t.calls if x.args and any(o[0] == "call" and o[1].bb == c.bb for o in tp.origins_op(x.args[0])))
+                ctx.check(mapped, prefix + "-R3", "unexamined|create", "the result of File::create is examined or returned through map/map_err (an Err stays an Err)", c.where())
+                continue
+            ctx.ok(prefix + "-R3", "the result of File::create is examined", c.where())
             for (bb, err_arm, ok_arm) in sw:
                 from ..common import return_values
                 region = cfg.reach_t(t, err_arm)
